@@ -283,7 +283,10 @@ def check(cx):
             and e.pc == T]
     r5.instance('encode: payload, 13, 10')
     want_puts = [('put', [('call', 'std::string::String::as_bytes', P('line'))]), ('put_u8', [('lit', 13)]), ('put_u8', [('lit', 10)])]
-    okp = len(puts) == 3 and puts[1:] == want_puts[1:] and puts[0][0] in ('put', 'put_slice', 'extend_from_slice') and mentions(puts[0][1], P('line'))
+    whole = puts and puts[0][1] and puts[0][1][0] in (P('line'), ('call', 'std::string::String::as_bytes', P('line')),
+                                                      ('call', 'core::str::<impl str>::as_bytes', P('line')),
+                                                      ('call', 'std::string::String::into_bytes', P('line')))
+    okp = len(puts) == 3 and puts[1:] == want_puts[1:] and puts[0][0] in ('put', 'put_slice', 'extend_from_slice') and whole
     if not okp:
         r5.violation('IRCLinesCodec::encode|crlf', 'the encoder does not emit exactly <payload> CR LF', loc=fe, found=str(puts)[:200])
     r5.instance('only BufferedLineStream::flush writes to the framed socket')
